@@ -1,4 +1,6 @@
 // rt_main.cpp — worker process: batch mode (many seeds), single-run mode (replay / minimiser candidates).
+#include <poll.h>
+#include <time.h>
 #include "rt_core.h"
 #include <algorithm>
 #include <stdio.h>
@@ -58,7 +60,23 @@ static void emit_summary() {
 }
 namespace rt { extern void (*on_die)(); }
 
-static void *dummy_thread(void *) { for (;;) pause(); }
+// Real-time watchdog (an ordinary OS thread, never a simulated one; it also keeps __libc_single_threaded false from the start).
+// The simulator only gets control at synchronisation operations: a simulated thread caught in a loop that performs none
+// (a list walk that never advances, a spin on a plain variable) would hang the worker for ever. If the process burns CPU time
+// while neither the run nor its step counter moves, the run is reported as a violation of class "spin.no_scheduling_point"
+// with the call stack of the thread that is running. CPU time, not wall time: a descheduled or stopped process never trips it.
+static double cpu_s() { struct timespec ts; clock_gettime(CLOCK_PROCESS_CPUTIME_ID, &ts); return ts.tv_sec + ts.tv_nsec * 1e-9; }
+static void *watchdog_thread(void *) {
+    unsigned long long last_run = ~0ull, last_steps = ~0ull, last_seq = ~0ull; double since = cpu_s();
+    for (;;) {
+        poll(nullptr, 0, 500);
+        unsigned long long r = G.seed, st = G.steps, sq = G.gen;
+        if (r != last_run || st != last_steps || sq != last_seq) { last_run = r; last_steps = st; last_seq = sq; since = cpu_s(); continue; }
+        if (G.run_active && G.cur && cpu_s() - since > 3.0)
+            violation("spin.no_scheduling_point", "simulated thread T%d has been running for more than 3 s of CPU time without reaching a synchronisation operation (a loop that performs no atomic, lock or blocking operation and never ends)", G.cur->id);
+    }
+    return nullptr;
+}
 
 static void parse_u32_list(const char *s, MVec<u32> &out) {
     while (*s) { char *e; unsigned long v = strtoul(s, &e, 10); if (e == s) break; out.push((u32)v); s = e; if (*s == ',') s++; }
@@ -90,7 +108,7 @@ int main(int argc, char **argv) {
         else { fprintf(stderr, "unknown argument %s\n", argv[i]); return 2; }
     }
     (void)have_decseed; (void)decseed;
-    pthread_t dt; pthread_create(&dt, nullptr, dummy_thread, nullptr);   // __libc_single_threaded = false from the start
+    pthread_t dt; pthread_create(&dt, nullptr, watchdog_thread, nullptr);   // __libc_single_threaded = false from the start
     heap_init(); sched_init(); rt::on_die = emit_summary;
     {   // pc ranges of functions whose allocations are accounted separately (thread_allocs_excluding): <exe>.excl, written by bin/check
         char path[600]; ssize_t n = readlink("/proc/self/exe", path, 500);
